@@ -316,6 +316,42 @@ def h_mlmc_barrier(ctx, n, bt):
     ctx.prove("C17.multilevel_pair_coarse_payoff_depends_on_the_coarse_path_only", EQ(np.ravel(got_c)[0], np.ravel(want_c)[0] if isinstance(want_c, np.ndarray) else want_c), info=info, replay=rp)
 
 
+def replay_barrier_representation(sc):
+    path = np.array(sc["path"], dtype=float)
+    t = np.arange(len(path), dtype=float)
+    k, b = sc["k"], sc["b"]
+    bt = getattr(BT, sc["bt"])
+    mk = lambda: PROD.Product(payoff_underlying=UND.Spot(), payoff=PAY.Barrier(strike=k, payoff_type=PT_.CALL, barrier_type=bt, barrier=b), maturity=1.0)
+    pi, pl = mk(), mk()
+    pl.update(REP.LOG)
+    vi = float(np.ravel(pi(pi.underlying_value(t, path, path)))[0])
+    lp = np.log(path)
+    vl = float(np.ravel(pl(pl.underlying_value(t, lp, lp)))[0])
+    return abs(vi - vl) > 1e-9 * max(1.0, abs(vi)), (f"Barrier({sc['bt']}, K={k}, B={b}) on the spot path {path.tolist()}: value {vi!r} with the identity representation, "
+                                                    f"{vl!r} with the logarithmic one (same spot path handed over as its logarithm)")
+
+
+def h_barrier_representation(ctx, n, bt):
+    """a barrier product gives the same value whether the process is simulated in spot or in log-spot (the product is told by update())"""
+    path = sym_path(ctx, n)
+    logpath = np.empty(n, dtype=object)
+    for i in range(n):
+        logpath[i] = shims.sym_log(path[i])
+        shims.sym_exp(logpath[i])  # instantiates exp(log x) = x
+    times = np.arange(n, dtype=float)
+    k, b = ctx.real("k"), ctx.real("b")
+    ctx.assume(b > 0)
+    btype = getattr(BT, bt)
+    mk = lambda: PROD.Product(payoff_underlying=UND.Spot(), payoff=PAY.Barrier(strike=k, payoff_type=PT_.CALL, barrier_type=btype, barrier=b), maturity=1.0)
+    pi, pl = mk(), mk()
+    pl.update(REP.LOG)
+    vi = pi(pi.underlying_value(times, path, path))
+    vl = pl(pl.underlying_value(times, logpath, logpath))
+    rp = (replay_barrier_representation, lambda m: {"path": _vals(m, path), "k": m.f(k), "b": m.f(b), "bt": bt})
+    ctx.prove("C17.identity_and_log_representation_agree", EQ(np.ravel(vi)[0] if isinstance(vi, np.ndarray) else vi, np.ravel(vl)[0] if isinstance(vl, np.ndarray) else vl),
+              info={"underlying": "Spot", "payoff": f"Barrier.{bt}", "n": n}, replay=rp)
+
+
 def h_default_time(ctx, n):
     times = sym_times(ctx, n)
     jp = np.empty(n, dtype=object)
@@ -374,6 +410,7 @@ def harnesses(tier):
     for bt in ("UP_AND_IN", "UP_AND_OUT", "DOWN_AND_IN", "DOWN_AND_OUT"):
         hs.append(Harness(f"barrier.history.{bt}", h_barrier_history, {"n": 2, "bt": bt}, max_paths=20000, batch=20))
         hs.append(Harness(f"barrier.mlmc_pair.{bt}", h_mlmc_barrier, {"n": 2, "bt": bt}, max_paths=20000, batch=20))
+        hs.append(Harness(f"barrier.representation.{bt}", h_barrier_representation, {"n": 2, "bt": bt}, max_paths=20000, batch=20))
     hs.append(Harness("representation", h_representation, {"n": 2}, max_paths=2000))
     hs.append(Harness("twin", h_twin, twin="must_fail"))
     return hs
